@@ -11,6 +11,16 @@
 //   * an enumeration name that operator<< does not print makes operator>> (and the params constructor) throw
 //   * run-time wrapper vs compile-time class on the same system: x, iteration count and residual bitwise identical
 //   * a params struct that does not even compile is reported with the compiler's message (deflated_solver probe)
+// The translation unit is compiled three times by vcheck.py (tools/checks/C14.json, "flags"), in parallel:
+//   -DVP_PART_STRUCTS  struct-level ops, nested chains, enum text ops, compile probes          (harness h_params)
+//   -DVP_PART_RT       run-time wrapper comparisons: solver / relaxation / coarsening / pside  (harness h_params_rt)
+//   -DVP_PART_RTP      run-time preconditioner (class amg / relaxation / dummy / nested)       (harness h_params_rtp)
+// without any of these macros all parts are compiled into one executable.
+#if !defined(VP_PART_STRUCTS) && !defined(VP_PART_RT) && !defined(VP_PART_RTP)
+#  define VP_PART_STRUCTS
+#  define VP_PART_RT
+#  define VP_PART_RTP
+#endif
 #include "params_common.hpp"
 
 #include <amgcl/backend/builtin.hpp>
@@ -43,8 +53,9 @@ typedef ac::amg<B, ac::coarsening::smoothed_aggregation, ac::relaxation::spai0> 
 
 // ------------------------------------------------------------------------------------------------ registry
 static void build_registry() {
-    using vp::reg;
     static bool done = false; if (done) return; done = true;
+#ifdef VP_PART_STRUCTS
+    using vp::reg;
     { typedef AMG::params P; auto &S = reg<P>("amg");
       VP_F(S, P, coarsening); VP_F(S, P, relax); VP_F(S, P, coarse_enough); VP_F(S, P, direct_coarse); VP_F(S, P, max_levels);
       VP_F(S, P, npre); VP_F(S, P, npost); VP_F(S, P, ncycle); VP_F(S, P, pre_cycles); VP_F(S, P, allow_rebuild); }
@@ -117,7 +128,7 @@ static void build_registry() {
         f = vp::FieldReg(); f.name = "vec"; f.kind = "pointer"; f.cand = vp::candidates_of<double*>(); S.fields.push_back(f);
         f = vp::FieldReg(); f.name = "precond"; f.kind = "child"; S.fields.push_back(f);
         f = vp::FieldReg(); f.name = "solver"; f.kind = "child"; S.fields.push_back(f); }
-
+#endif
     namespace rt = ac::runtime;
     vp::reg_enum<rt::solver::type>("runtime::solver", {VP_E(rt::solver, cg), VP_E(rt::solver, bicgstab), VP_E(rt::solver, bicgstabl),
         VP_E(rt::solver, gmres), VP_E(rt::solver, lgmres), VP_E(rt::solver, fgmres), VP_E(rt::solver, idrs), VP_E(rt::solver, richardson), VP_E(rt::solver, preonly)});
@@ -230,6 +241,7 @@ static const unsigned CE = 8;   // coarse_enough: forces a hierarchy with >= 2 l
                                 // reads relax.type / coarsening.type)
 
 // each `ct_*` runs the compile-time composition named by the enumerator; returns false for an unknown enumerator
+#ifdef VP_PART_RT
 static bool ct_solver(const std::string &id, const Sys &s, Out &o, bool &maxiter) {
 #define X(T) if (id == #T) { typedef ac::make_solver<AMG, ac::solver::T<B>> S; S::params p; p.precond.coarse_enough = CE; set_maxiter(p.solver, 0); maxiter = has_maxiter(p.solver, 0); o = run<S>(s, p); return true; }
     X(cg) X(bicgstab) X(bicgstabl) X(gmres) X(lgmres) X(fgmres) X(idrs) X(richardson) X(preonly)
@@ -248,6 +260,8 @@ static bool ct_coarsening(const std::string &id, const Sys &s, Out &o) {
 #undef X
     return false;
 }
+#endif
+#ifdef VP_PART_RTP
 static bool ct_class(const std::string &id, const Sys &s, Out &o) {
     typedef ac::solver::fgmres<B> Outer;
     if (id == "amg") { typedef ac::make_solver<AMG, Outer> S; S::params p; p.solver.maxiter = MAXIT; p.precond.coarse_enough = CE; o = run<S>(s, p); return true; }
@@ -256,6 +270,8 @@ static bool ct_class(const std::string &id, const Sys &s, Out &o) {
     if (id == "nested") { typedef ac::make_solver<ac::make_solver<AMG, ac::solver::bicgstab<B>>, Outer> S; S::params p; p.solver.maxiter = MAXIT; p.precond.solver.maxiter = 2; p.precond.precond.coarse_enough = CE; o = run<S>(s, p); return true; }
     return false;
 }
+
+#endif
 
 static Result runtime_op(const Toks &t) {
     Cur c(t); const std::string e = c.tok(), x = c.tok(); c.expect_end();
@@ -273,7 +289,9 @@ static Result runtime_op(const Toks &t) {
     Out rt, ct; bool known = false;
     try {
         ptree p;
-        if (e == "runtime::solver") {
+        if (false) {
+#ifdef VP_PART_RT
+        } else if (e == "runtime::solver") {
             bool mi = false; known = ct_solver(x, s, ct, mi);
             p.put("solver.type", text); if (mi) p.put("solver.maxiter", MAXIT); p.put("precond.coarse_enough", CE);
             rt = run<ac::make_solver<AMG, ac::runtime::solver::wrapper<B>>>(s, p);
@@ -285,19 +303,24 @@ static Result runtime_op(const Toks &t) {
             known = ct_coarsening(x, s, ct);
             p.put("precond.coarsening.type", text); p.put("precond.coarse_enough", CE); p.put("solver.maxiter", MAXIT);
             rt = run<ac::make_solver<ac::amg<B, ac::runtime::coarsening::wrapper, ac::relaxation::spai0>, ac::solver::bicgstab<B>>>(s, p);
+#endif
+#ifdef VP_PART_RTP
         } else if (e == "runtime::precond_class") {
             known = ct_class(x, s, ct);
             p.put("precond.class", text); p.put("solver.maxiter", MAXIT);
             if (x == "nested") { p.put("precond.solver.maxiter", 2); p.put("precond.precond.coarse_enough", CE); }
             if (x == "amg") p.put("precond.coarse_enough", CE);
             rt = run<ac::make_solver<ac::runtime::preconditioner<B>, ac::solver::fgmres<B>>>(s, p);
+#endif
+#ifdef VP_PART_RT
         } else if (e == "preconditioner::side") {
             typedef ac::make_solver<AMG, ac::solver::gmres<B>> S; S::params q; q.solver.maxiter = MAXIT; q.precond.coarse_enough = CE;
             if (x == "left") q.solver.pside = ac::preconditioner::side::left; else if (x == "right") q.solver.pside = ac::preconditioner::side::right; else throw bad_input("side");
             ct = run<S>(s, q); known = true;
             p.put("solver.pside", text); p.put("solver.maxiter", MAXIT); p.put("precond.coarse_enough", CE);
             rt = run<S>(s, S::params(p));
-        } else throw bad_input("enum without run-time comparison");
+#endif
+        } else throw bad_input("enum without run-time comparison in this part of the harness");
         if (!known) { r.out = "no-compile-time-class"; r.fail("enum " + e + " value " + x + ": the harness has no compile-time composition for this enumerator (new value?)"); return r; }
         if (bitwise_equal(rt, ct)) r.out = "same";
         else { r.out = "differ"; r.fail("enum " + e + " value " + x + ": run-time wrapper and compile-time class differ (iters " + std::to_string(rt.iters) + " vs " + std::to_string(ct.iters) + ")"); }
@@ -336,6 +359,7 @@ static Result execute(const Toks &t) {
 
 static void generate(Rng &rng, const Opts &o, std::vector<std::string> &lines) {
     build_registry();
+#ifdef VP_PART_STRUCTS
     vp::gen_struct_ops(rng, o.thorough(), lines);
     vp::gen_nested_ops(rng, o.thorough(), {
         "make_solver precond=amg npre",
@@ -352,10 +376,20 @@ static void generate(Rng &rng, const Opts &o, std::vector<std::string> &lines) {
         "relaxation::ilu0 solve=relaxation::detail::ilu_solve<builtin> serial",
         "solver::gmres pside"}, lines);
     vp::gen_enum_text_ops(rng, o.thorough(), lines);
-    for (auto &E : vp::enums()) for (auto &id : E.idents) lines.push_back("params_runtime " + E.name + " " + id);
+    vp::gen_malformed(lines);
+#endif
+    for (auto &E : vp::enums()) for (auto &id : E.idents) {
+        bool rtp = E.name == "runtime::precond_class";
+#ifndef VP_PART_RT
+        if (!rtp) continue;
+#endif
+#ifndef VP_PART_RTP
+        if (rtp) continue;
+#endif
+        lines.push_back("params_runtime " + E.name + " " + id);
+    }
     lines.push_back("params_runtime runtime::solver no_such_solver");
     lines.push_back("params_runtime");
-    vp::gen_malformed(lines);
 }
 
 int main(int argc, char **argv) {
